@@ -3,6 +3,7 @@ package main
 import (
 	"fmt"
 	"go/ast"
+	"go/constant"
 	"go/token"
 	"go/types"
 	"regexp/syntax"
@@ -99,6 +100,12 @@ func litString(e ast.Expr) string {
 	if bl, ok := e.(*ast.BasicLit); ok && bl.Kind == token.STRING {
 		if s, err := strconv.Unquote(bl.Value); err == nil {
 			return s
+		}
+	}
+	// a named constant (or a constant expression) spelled instead of the literal
+	if curWorld != nil && len(curWorld.Pkgs) > 0 && curWorld.Pkgs[0].TypesInfo != nil {
+		if tv, ok := curWorld.Pkgs[0].TypesInfo.Types[e]; ok && tv.Value != nil && tv.Value.Kind() == constant.String {
+			return constant.StringVal(tv.Value)
 		}
 	}
 	return "\x00"
